@@ -1427,16 +1427,23 @@ impl KotoVm {
                     if !op.is_callable() {
                         return unexpected_type("Callable function from @next", &op);
                     }
-                    // The return value will be retrieved from execute_instructions
-                    self.call_overridden_op_1(None, iterable_register, op)?;
-                    self.frame_mut().execution_barrier = true;
-                    match self.execute_instructions() {
-                        Ok(Null) => None,
-                        Ok(output) => Some(output),
-                        Err(error) => {
-                            self.pop_frame(KValue::Null)?;
-                            return Err(error);
-                        }
+                    let old_frame_count = self.call_stack.len();
+
+                    // @next might be a native function, which gets called immediately without a
+                    // frame being pushed, so a temporary register is needed to receive its result.
+                    let temp_register = self.new_frame_base()?;
+                    self.registers.push(Null);
+
+                    if let Err(error) =
+                        self.call_overridden_op_1(Some(temp_register), iterable_register, op)
+                    {
+                        self.truncate_registers(temp_register);
+                        return Err(error);
+                    }
+
+                    match self.get_overridden_op_result(old_frame_count, temp_register)? {
+                        Null => None,
+                        output => Some(output),
                     }
                 }
                 unexpected => return unexpected_type("Iterator", &unexpected),
